@@ -70,6 +70,27 @@ class CleanSem(Sem):
         self.heads[st] = (head, back_states)
 
 
+class _SetSem(Sem):
+    """state: the event has been set on every path reaching here"""
+    base_exc_escapes = False
+
+    def __init__(self, ev, failall):
+        self.ev, self.failall = ev, failall
+
+    def join2(self, a, b):
+        return a and b
+
+    def atomic(self, st):
+        # the fail-all routine is non-raising given C14-R2/R3; exception constructors and logging do not raise
+        cs = calls_in(st)
+        return not cs or all((dotted(c.func) or "").startswith(("logging.", "traceback.")) or
+                             (isinstance(c.func, ast.Attribute) and c.func.attr in ("set", self.failall)) or
+                             callee_name(c) in ("str", "type") or (callee_name(c) or "").endswith(("Exception", "Error")) for c in cs)
+
+    def transfer(self, st, state):
+        return state or any(isinstance(c.func, ast.Attribute) and c.func.attr == "set" and dotted(c.func.value) == self.ev for c in calls_in(st))
+
+
 class _ReplySem(Sem):
     """state: set of {'idle' (no request run), 'pending' (request run, reply not sent), 'replied'} over the paths reaching here"""
     base_exc_escapes = False
@@ -152,6 +173,7 @@ def check(ctx):
     ctx.rule("C14-R8", "thread ownership: the pending table is mutated only in io-loop context (coroutines, and synchronous helpers called only from them)")
     ctx.rule("C14-R9", "reply-or-exit: in the listener, once a request has been handed to the interpreter every normal return has sent the reply; a failure to reply leaves the listener by exception (the connection is dropped, the peer's call fails)")
     ctx.rule("C14-R10", "gate: the registering coroutine sends through the stream attribute read on the io loop at send time; every function that fails the pending calls has reset that attribute before, or resets it afterwards with no suspension point in between, so no call can register after the table was flushed")
+    ctx.rule("C14-R11", "stop handshake: the event a stopping caller blocks on is set on every exit of the run loop (normal or exceptional), so close()/cleanup() cannot wait forever for a loop that has already ended")
     ctx.trust("Future.set_exception(None) raises TypeError", "a future completed twice raises InvalidStateError", "coroutines scheduled on the io loop run on its thread")
 
     run = repo.fn(f"{IPC}:NetworkClient._run")
@@ -378,6 +400,24 @@ def check(ctx):
                    msg=f"{f.name} can end with the pending table flushed and {gate} still set: later calls are written to the dead stream and wait forever")
         ctx.floor("C14-R10", "functions that flush the pending table", n_fl, 1)
 
+    # ---- R11 stop handshake
+    waited = set()
+    for f in m.funcs.values():
+        if f.cls == "NetworkClient" and not isinstance(f.node, ast.AsyncFunctionDef):
+            for c in calls_in(f.node):
+                if isinstance(c.func, ast.Attribute) and c.func.attr == "wait" and (dotted(c.func.value) or "").startswith("self.") and not c.args:
+                    waited.add(dotted(c.func.value))
+    ctx.floor("C14-R11", "events a synchronous NetworkClient method blocks on", len(waited), 1)
+    for ev in sorted(waited):
+        ctx.instance("C14-R11", run.fq, ev)
+        es = _SetSem(ev, failall.name)
+        ex = es.run(run.node, False)
+        bad = [x for x in ex if not x.state]
+        ctx.ob("C14-R11", run.fq, f"{ev}.set() has happened on every exit of the run loop ({len(ex)} exits)", not bad and bool(ex), node=bad[0].node if bad else run.node,
+               construct=f"run loop can end without setting {ev}",
+               msg=f"the run loop can end ({'exception' if bad and bad[0].kind == 'exc' else 'return'} at line {bad[0].line if bad else 0}) without {ev}.set(): a later close()/cleanup() blocks forever in {ev}.wait()",
+               path=f"entry {run.fq} -> {bad[0].kind if bad else ''}@{bad[0].line if bad else 0}")
+
     # ---- R7
     srv = repo.fn(f"{IPC}:execute_server_command")
     ctx.instance("C14-R7", srv.fq)
@@ -484,6 +524,8 @@ MUTATION_SCOPE = ['sys_fn_ipc:NetworkClient._run',
                   'sys_fn_ipc:execute_server_command']
 
 SEEDS = [
+    Seed("run-exit-event-not-set", "fault", IPC, "        self._run_exit_event.set()\n", "        pass\n", rule="C14-R11"),
+    Seed("run-handlers-narrowed", "fault", IPC, "            except Exception as e:\n                close_exception = KlongIPCConnectionFailureException(\"unknown error\")", "            except OSError as e:\n                close_exception = KlongIPCConnectionFailureException(\"unknown error\")", rule="C14-R11"),
     Seed("send-through-captured-writer", "fault", IPC, "        msg_id = uuid.uuid4()\n", "        msg_id = uuid.uuid4()\n        w = self.writer\n",
          more=[(IPC, "            await stream_send_msg(self.writer, msg_id, msg)\n            return await future", "            await stream_send_msg(w, msg_id, msg)\n            return await future")], rule="C14-R10"),
     Seed("reset-writer-after-on-close", "fault", IPC, "                self.writer = None\n                self.reader = None\n                self._cleanup_pending_responses(close_exception)\n", "                self._cleanup_pending_responses(close_exception)\n",
